@@ -35,6 +35,9 @@ class Obs(hooks.Observer):
         self.splits = 0
         self._before = None
         self.fixed = None
+        # in half of the histories nothing but the refinement itself happens between the last interpolation call on the fixed
+        # list before a refinement and the first one after it (the monitors' own queries would otherwise refresh any cached state)
+        self.quiet_between = rng.random() < 0.5
 
     def deepest(self, c):
         return 0
@@ -47,7 +50,8 @@ class Obs(hooks.Observer):
         super().after_refine(c)
         where = "after refine #%d" % self.steps
         extsplit.check_tiling(self.res, c, where)
-        extsplit.check_assignment(self.res, c, extsplit.probe_points(c, self.rng), where)
+        if not self.quiet_between:
+            extsplit.check_assignment(self.res, c, extsplit.probe_points(c, self.rng), where)
         n, lmax, cs = self._before
         L = extsplit.leaves(c)
         if len(L) > n:
@@ -65,6 +69,7 @@ class Obs(hooks.Observer):
         v_same = np.asarray(c(self.fixed), dtype=float) if self.fixed is not None else None
         if self.evals == 1:
             extsplit.check_tiling(self.res, c, where)
+        if self.evals == 1 or self.quiet_between:
             extsplit.check_assignment(self.res, c, extsplit.probe_points(c, self.rng), where)
         suffix = ":version12_lmin_gt1" if (self.cfg["version"] in (1, 2) and self.cfg["lmin"] > 1) else ""
         extsplit.check_local_combination(self.res, c, where, self.f if self.cfg["boundary"] else None, rng=self.rng, sigsuffix=suffix)
